@@ -428,6 +428,7 @@ package lang
 //@ ghost $isName string
 //@ ghost $nmatch int
 //@ ghost $nRuns int
+//@ ghost $lastRet *Cell
 //@ ghost $epErr error
 //@ ghost $nRun int
 //@ ghost $nSkip int
@@ -561,6 +562,7 @@ package lang
 //@   after Evaluator.evalExpr: $recv = (ret1 == nil ? ret0.Value.Binding : $recv)
 //@   assert[C15] receiver-is-the-one-bound-at-lookup: arg2.Value.Binding == $recv @ Evaluator.callFunction
 //@   assert[C04,C08,C09,C15] operands-are-copied: arg2 @ Evaluator.evalExprList
+//@   assert[C08,C15] the-list-evaluated-is-the-nodes-own-argument-or-element-list: (istype(expr, *ExprCall) ==> arg1 == as(expr, *ExprCall).Args) && (istype(expr, *ExprArray) ==> arg1 == as(expr, *ExprArray).Items) @ Evaluator.evalExprList
 //@   assert[C19] first-match-wins: $nmatch == 0 @ Evaluator.evalCaseMatch
 //@   assert[C19] body-only-after-match: $nmatch == 1 @ Evaluator.evalStatement
 //@   ensures[C19] block-body-yields-null: err == nil && istype(expr, *ExprMatch) && $ranBlock ==> result0.Value.Tag == ValueNil && fresh(result0)
@@ -636,6 +638,11 @@ package lang
 //@   after copyValue: $lastCopy = ret0
 //@   loop 0 invariant[C01,C09,C15] every-operand-handed-on-in-copy-mode-went-through-copyValue: copy && rangeindex >= 0 ==> evaledExprs[rangeindex] == $lastCopy
 //@   loop 0 invariant own-list: fresh(evaledExprs) && e.evalDepth == old(e.evalDepth)
+//@   init $lastRet = nil
+//@   after Evaluator.evalExpr: $lastRet = ret0
+//@   assert[C08,C15] the-items-are-evaluated-in-list-order-each-once: 0 <= rangeindex && rangeindex < len(exprs) && arg1 == exprs[rangeindex] @ Evaluator.evalExpr
+//@   assert[C08,C15] the-copy-handed-on-is-a-copy-of-the-item-just-evaluated: arg0 == $lastRet @ copyValue
+//@   loop 0 invariant[C08,C15] without-copying-the-cell-just-evaluated-is-handed-on: !copy && rangeindex >= 0 ==> evaledExprs[rangeindex] == $lastRet
 //@   loop 0 invariant[C09] copies-so-far-fresh: copy ==> (forall k int :: 0 <= k && k <= rangeindex ==> fresh(evaledExprs[k]))
 //@   loop 0 invariant protocol: evInv(e, old(e.stackTop)) && len(evaledExprs) == rangeindex + 1 && $itemErr == nil
 
